@@ -9,7 +9,9 @@ import (
 	"fmt"
 	"sort"
 	"strings"
+	"sync"
 	"testing"
+	"testing/synctest"
 	"time"
 
 	enc "github.com/named-data/ndnd/std/encoding"
@@ -19,10 +21,17 @@ import (
 	sec "github.com/named-data/ndnd/std/security"
 	"github.com/named-data/ndnd/std/utils"
 
+	"github.com/named-data/ndnd/std/engine/dummy"
+
 	"verifsim/kit"
 )
 
-type Config struct{}
+type Config struct {
+	// Harness selects the clock and face the engine runs on: "" = the simulator's own (the scenario picks which
+	// due timer fires next), "dummy" = the repository's virtual-clock test timer and dummy face (std/engine/dummy),
+	// which fire every due event on each clock advance.
+	Harness string `json:"harness,omitempty"`
+}
 
 type Op struct {
 	Op     string `json:"op"` // express data nack advance fire attach detach interest reply final
@@ -70,6 +79,12 @@ func (Engine) Generate(prop string, r *kit.Rand, tier string) *kit.Scenario[Conf
 	n := r.Range(4, 60)
 	if r.Chance(0.4) {
 		n = r.Range(3, 14)
+	}
+	switch {
+	case r.Chance(0.3):
+		sc.Config.Harness = "dummy"
+	case r.Chance(0.01):
+		sc.Config.Harness = "real"
 	}
 	var pool []string
 	nexp, nint := 0, 0
@@ -164,6 +179,18 @@ func (f *simFace) Send(pkt enc.Wire) error {
 	return nil
 }
 
+// lockedFace serialises Send (the production timer runs callbacks on their own goroutines).
+type lockedFace struct {
+	*simFace
+	mu *sync.Mutex
+}
+
+func (f *lockedFace) Send(pkt enc.Wire) error {
+	f.mu.Lock()
+	defer f.mu.Unlock()
+	return f.simFace.Send(pkt)
+}
+
 type simEvent struct {
 	at        time.Time
 	seq       int
@@ -239,12 +266,73 @@ func mkName(s string) enc.Name {
 func isPrefix(p, n string) bool { return n == p || strings.HasPrefix(n, p+"/") }
 
 func (e Engine) Run(t *testing.T, ctx *kit.Ctx, sc *kit.Scenario[Config, Op]) *kit.Result {
+	if sc.Config.Harness == "real" {
+		// the engine on its production timer (time.AfterFunc), inside a bubble: the clock is the bubble's,
+		// timeouts run on timer goroutines, the harness steps from quiescence to quiescence
+		var out *kit.Result
+		var pan any
+		var site string
+		synctest.Test(t, func(t *testing.T) {
+			defer func() {
+				if p := recover(); p != nil {
+					pan, site = p, kit.PanicSite()
+				}
+			}()
+			out = e.runBody(t, ctx, sc)
+		})
+		if pan != nil {
+			if strings.HasPrefix(site, "harness:") {
+				panic(pan)
+			}
+			return &kit.Result{Violation: &kit.Violation{Class: "C20/panic", Key: site, Step: -1, Detail: fmt.Sprint(pan)}}
+		}
+		return out
+	}
+	return e.runBody(t, ctx, sc)
+}
+
+func (e Engine) runBody(t *testing.T, ctx *kit.Ctx, sc *kit.Scenario[Config, Op]) *kit.Result {
 	res := &kit.Result{}
 	face := &simFace{}
 	start := time.Date(2000, 1, 1, 0, 0, 0, 0, time.UTC)
 	timer := &simTimer{now: start}
 	signer := sec.NewSha256Signer()
-	eng := basic.NewEngine(face, timer, signer, func(enc.Name, enc.Wire, ndn.Signature) bool { return true })
+	useDummy := sc.Config.Harness == "dummy"
+	useReal := sc.Config.Harness == "real"
+	var dtimer *dummy.Timer
+	var dface *dummy.DummyFace
+	dsent := 0
+	nowT := func() time.Time { return timer.now }
+	sentCount := func() int { return len(face.sent) }
+	feedPkt := func(b []byte) { face.onPkt(enc.NewBufferReader(b)) }
+	var eng *basic.Engine
+	if useDummy {
+		dtimer, dface = dummy.NewTimer(), dummy.NewDummyFace()
+		start = dtimer.Now()
+		nowT = func() time.Time { return dtimer.Now() }
+		sentCount = func() int {
+			for {
+				if _, err := dface.Consume(); err != nil {
+					break
+				}
+				dsent++
+			}
+			return dsent
+		}
+		feedPkt = func(b []byte) { dface.FeedPacket(b) }
+		eng = basic.NewEngine(dface, dtimer, signer, func(enc.Name, enc.Wire, ndn.Signature) bool { return true })
+		ctx.Probe("engine-on-dummy-timer-and-face")
+	} else if useReal {
+		start = time.Now()
+		nowT = func() time.Time { return time.Now() }
+		var mu sync.Mutex // Send is reached from timer goroutines too
+		rface := &lockedFace{simFace: face, mu: &mu}
+		sentCount = func() int { mu.Lock(); defer mu.Unlock(); return len(face.sent) }
+		eng = basic.NewEngine(rface, basic.NewTimer(), signer, func(enc.Name, enc.Wire, ndn.Signature) bool { return true })
+		ctx.Probe("engine-on-production-timer-in-bubble")
+	} else {
+		eng = basic.NewEngine(face, timer, signer, func(enc.Name, enc.Wire, ndn.Signature) bool { return true })
+	}
 	if err := eng.Start(); err != nil {
 		panic("harness: engine start: " + err.Error())
 	}
@@ -295,11 +383,11 @@ func (e Engine) Run(t *testing.T, ctx *kit.Ctx, sc *kit.Scenario[Config, Op]) *k
 	for i, op := range sc.Ops {
 		step = i
 		cbs = cbs[:0]
-		nsent := len(face.sent)
+		nsent := sentCount()
 		switch op.Op {
 		case "express":
 			name := mkName(op.Name)
-			p := &pend{id: len(pends), name: op.Name, cbp: op.CBP, t0: timer.now}
+			p := &pend{id: len(pends), name: op.Name, cbp: op.CBP, t0: nowT()}
 			if op.Digest > 0 {
 				sum := sha256.Sum256(dataWire(op.Name, op.Digest-1))
 				p.digest = sum[:]
@@ -338,8 +426,8 @@ func (e Engine) Run(t *testing.T, ctx *kit.Ctx, sc *kit.Scenario[Config, Op]) *k
 			if err != nil {
 				return fail("C20/express-failed", "", "Express(%s) returned %v", op.Name, err)
 			}
-			if len(face.sent) != nsent+1 {
-				return fail("C20/interest-not-transmitted", "", "Express(%s) put %d packets on the face", op.Name, len(face.sent)-nsent)
+			if sentCount() != nsent+1 {
+				return fail("C20/interest-not-transmitted", "", "Express(%s) put %d packets on the face", op.Name, sentCount()-nsent)
 			}
 		case "data":
 			w := dataWire(op.Name, op.Var)
@@ -350,7 +438,7 @@ func (e Engine) Run(t *testing.T, ctx *kit.Ctx, sc *kit.Scenario[Config, Op]) *k
 				encoder.Init(lp)
 				feed = encoder.Encode(lp).Join()
 			}
-			face.onPkt(enc.NewBufferReader(feed))
+			feedPkt(feed)
 			// recycle the receive buffer, as a real face may
 			for j := range feed {
 				feed[j] = 0xEE
@@ -360,11 +448,22 @@ func (e Engine) Run(t *testing.T, ctx *kit.Ctx, sc *kit.Scenario[Config, Op]) *k
 			lp := &spec.Packet{LpPacket: &spec.LpPacket{Nack: &spec.NetworkNack{Reason: spec.NackReasonNoRoute}, Fragment: ei.Wire}}
 			encoder := spec.PacketEncoder{}
 			encoder.Init(lp)
-			face.onPkt(enc.NewBufferReader(encoder.Encode(lp).Join()))
+			feedPkt(encoder.Encode(lp).Join())
 		case "advance":
-			timer.now = timer.now.Add(time.Duration(op.Ms) * time.Millisecond)
+			if useDummy {
+				dtimer.MoveForward(time.Duration(op.Ms) * time.Millisecond)
+			} else if useReal {
+				time.Sleep(time.Duration(op.Ms) * time.Millisecond)
+				synctest.Wait()
+			} else {
+				timer.now = timer.now.Add(time.Duration(op.Ms) * time.Millisecond)
+			}
 		case "fire":
-			if d := timer.due(); len(d) > 0 {
+			if useDummy {
+				dtimer.MoveForward(0)
+			} else if useReal {
+				synctest.Wait()
+			} else if d := timer.due(); len(d) > 0 {
 				ev := d[op.K%len(d)]
 				ev.fired = true
 				ev.f()
@@ -403,7 +502,7 @@ func (e Engine) Run(t *testing.T, ctx *kit.Ctx, sc *kit.Scenario[Config, Op]) *k
 			}
 			ei, _ := spec.Spec{}.MakeInterest(mkName(op.Name), cfg, nil, nil)
 			before := len(received)
-			face.onPkt(enc.NewBufferReader(ei.Wire.Join()))
+			feedPkt(ei.Wire.Join())
 			want := ""
 			for h := range handlers {
 				if isPrefix(h, op.Name) && len(h) > len(want) {
@@ -429,13 +528,13 @@ func (e Engine) Run(t *testing.T, ctx *kit.Ctx, sc *kit.Scenario[Config, Op]) *k
 			if op.K < len(received) && received[op.K] != nil {
 				in := received[op.K]
 				err := in.reply(enc.Wire{dataWire(in.name, 0)})
-				sent := len(face.sent) - nsent
-				if timer.now.After(in.deadline) {
+				sent := sentCount() - nsent
+				if nowT().After(in.deadline) {
 					ctx.Probe("reply-after-deadline")
 					if sent != 0 || err == nil {
-						return fail("C20/reply-after-deadline-transmitted", "", "reply to %s at %v, deadline %v: err=%v, %d packets sent", in.name, timer.now.Sub(start), in.deadline.Sub(start), err, sent)
+						return fail("C20/reply-after-deadline-transmitted", "", "reply to %s at %v, deadline %v: err=%v, %d packets sent", in.name, nowT().Sub(start), in.deadline.Sub(start), err, sent)
 					}
-				} else if timer.now.Before(in.deadline) {
+				} else if nowT().Before(in.deadline) {
 					if sent != 1 || err != nil {
 						return fail("C20/reply-before-deadline-not-transmitted", "", "reply to %s before its deadline: err=%v, %d packets sent", in.name, err, sent)
 					}
@@ -443,14 +542,22 @@ func (e Engine) Run(t *testing.T, ctx *kit.Ctx, sc *kit.Scenario[Config, Op]) *k
 			}
 		case "final":
 			// faults stop: run the clock beyond every deadline and fire everything due
-			far := timer.now
+			far := nowT()
 			for _, p := range pends {
 				if d := p.t0.Add(p.life); d.After(far) {
 					far = d
 				}
 			}
+			if useDummy {
+				dtimer.MoveForward(far.Sub(nowT()) + time.Second)
+				dtimer.MoveForward(time.Second)
+			}
+			if useReal {
+				time.Sleep(far.Sub(nowT()) + 2*time.Second)
+				synctest.Wait()
+			}
 			timer.now = far.Add(time.Second)
-			for guard := 0; guard < 10000; guard++ {
+			for guard := 0; guard < 10000 && !useDummy && !useReal; guard++ {
 				d := timer.due()
 				if len(d) == 0 {
 					break
@@ -461,7 +568,7 @@ func (e Engine) Run(t *testing.T, ctx *kit.Ctx, sc *kit.Scenario[Config, Op]) *k
 		}
 		res.Steps++
 		// ---- oracle over the callbacks of this step
-		now := timer.now
+		now := nowT()
 		var dataName string
 		var dataRaw []byte
 		if op.Op == "data" {
@@ -535,11 +642,11 @@ func (e Engine) Run(t *testing.T, ctx *kit.Ctx, sc *kit.Scenario[Config, Op]) *k
 				}
 			}
 		}
-		sd := kit.NewDigest().I(unresolved).I(len(cbs)).I(len(received)).I(len(face.sent) - nsent)
+		sd := kit.NewDigest().I(unresolved).I(len(cbs)).I(len(received)).I(sentCount() - nsent)
 		ctx.State(sd.Sum())
 		dg.U(sd.Sum())
 	}
-	res.SimNanos = int64(timer.now.Sub(start))
+	res.SimNanos = int64(nowT().Sub(start))
 	res.Digest = dg.Sum()
 	res.NonTrivial = maxPending >= 2 && len(kinds) >= 2
 	return res
